@@ -162,7 +162,7 @@ theorem C03_other_class_identity (c : Case) (hg : generates c = true) (h : sameC
 example : ∃ c, generates c = true ∧ sameClass c.rhs = false ∧ eqOp c = .T ∧ neOp c = .F :=
   ⟨{ fields := [], rhs := .super, clsEq := .unset, autoDetect := false,
      own := ⟨.absent, .absent⟩, ancestors := [⟨.user .T, .user .F⟩], subLayer := ⟨.absent, .absent⟩,
-     foreignLayer := ⟨.absent, .absent⟩,
+     foreignLayer := ⟨.absent, .absent⟩, metaLayer := ⟨.absent, .absent⟩,
      hist := ⟨false, false, false, [], []⟩ }, by decide⟩
 
 /-- for operands of the same class the results are a function of the `and` chain over the participating
@@ -190,7 +190,7 @@ theorem C03_nonparticipating_irrelevant (c d : Case) (hc : generates c = true) (
 def bare (c : Case) : Case :=
   { fields := c.fields.map (fun f => { f with hash := .unset, hashDiffers := false }),
     rhs := c.rhs, clsEq := .t, autoDetect := false, own := ⟨.absent, .absent⟩, ancestors := [],
-    subLayer := c.subLayer, foreignLayer := c.foreignLayer,
+    subLayer := c.subLayer, foreignLayer := c.foreignLayer, metaLayer := ⟨.absent, .absent⟩,
     hist := ⟨false, false, false, [], []⟩ }
 
 @[simp] theorem participates_hash (f : Field) (a : Flag) (b : Bool) :
@@ -226,6 +226,69 @@ theorem C03_history_irrelevant (c : Case) (hg : generates c = true) (hs : sameCl
     model c = model (bare c) :=
   model_same_class c (bare c) hg (by simp [generates, bare]) rfl hs
     (by simp only [bare, filter_hash, chain_hash])
+
+/-! ### the per-field `order=` argument and the metaclass never matter -/
+
+/-- the field as declared for equality only: `order=` left out -/
+def dropOrder (f : Field) : Field := { f with order := .unset, orderKeyed := .T }
+
+theorem effEq_of_isSome (f : Field) (h : (effEq f).isSome = true) : effEq f = eqTable f := by
+  cases hh : orderOk f <;> simp_all [effEq]
+
+theorem effEq_dropOrder (f : Field) : effEq (dropOrder f) = eqTable f := rfl
+
+theorem participates_dropOrder (f : Field) (h : (effEq f).isSome = true) :
+    participates (dropOrder f) = participates f := by
+  simp only [participates, effEq_dropOrder, effEq_of_isSome f h]
+
+theorem outcome_dropOrder (f : Field) (h : (effEq f).isSome = true) :
+    outcome (dropOrder f) = outcome f ∧ tag (dropOrder f) = tag f := by
+  simp only [outcome, tag, hasKey, effEq_dropOrder, effEq_of_isSome f h]
+  exact ⟨rfl, rfl⟩
+
+theorem filter_dropOrder (fs : List Field) (h : ∀ f ∈ fs, (effEq f).isSome = true) :
+    (fs.map dropOrder).filter participates = (fs.filter participates).map dropOrder := by
+  induction fs with
+  | nil => rfl
+  | cons f rest ih =>
+    have hf := participates_dropOrder f (h f List.mem_cons_self)
+    have ih' := ih (fun g hg => h g (List.mem_cons_of_mem _ hg))
+    simp only [List.map_cons, List.filter_cons, hf]
+    split <;> simp_all
+
+theorem chain_dropOrder (fs : List Field) (h : ∀ f ∈ fs, (effEq f).isSome = true) :
+    chain (fs.map dropOrder) = chain fs := by
+  induction fs with
+  | nil => rfl
+  | cons f rest ih =>
+    obtain ⟨ho, ht⟩ := outcome_dropOrder f (h f List.mem_cons_self)
+    have ih' := ih (fun g hg => h g (List.mem_cons_of_mem _ hg))
+    cases rest with
+    | nil => simp [chain, ho, ht]
+    | cons g rest =>
+      simp only [List.map_cons] at ih' ⊢
+      simp only [chain, ih', ho, ht]
+
+/-- **C03_order_key_irrelevant**: a per-field `order=` argument — True, False or a key function, with any
+    outcome the order key would give — never changes `==`/`!=` nor what is compared: only the eq key counts. -/
+theorem C03_order_key_irrelevant (c : Case) (hw : wf c = true) (hs : sameClass c.rhs = true) :
+    model c = model { c with fields := c.fields.map dropOrder } := by
+  simp only [wf, Bool.and_eq_true, List.all_eq_true] at hw
+  have hv : ∀ f ∈ c.fields, (effEq f).isSome = true := hw.1.1
+  have hv' : ∀ f ∈ c.fields.filter participates, (effEq f).isSome = true :=
+    fun f hf => hv f (List.mem_filter.1 hf).1
+  exact model_same_class c _ hw.2 (by simpa [generates] using hw.2) rfl hs
+    (by simp only [filter_dropOrder _ hv, chain_dropOrder _ hv'])
+
+/-- non-vacuity: an order key whose outcome differs from the raw one -/
+example : ∃ f : Field, (effEq f).isSome = true ∧ f.order = .key ∧ f.orderKeyed ≠ f.raw ∧ outcome f = f.raw :=
+  ⟨{ name := "a", cmp := .unset, eq := .unset, raw := .F, keyed := .T, sameObj := false, hash := .unset,
+     hashDiffers := false, order := .key, orderKeyed := .T }, by decide⟩
+
+/-- **C03_class_identity_not_equality**: "the very same class" is identity of class objects: whatever a
+    metaclass answers for `==`/`!=` between classes, nothing changes. -/
+theorem C03_class_identity_not_equality (c : Case) (m : Layer) :
+    model { c with metaLayer := m } = model c := rfl
 
 /-- operands evaluated by the chain: up to and including the first falsy one -/
 def upToFirstFalsy : List Field → List String
@@ -283,10 +346,11 @@ theorem C03_uses_eq_not_identity (c : Case) (b : Bool) :
 
 theorem nan_witness :
     (model { fields := [{ name := "a", cmp := .unset, eq := .unset, raw := .F, keyed := .F,
-                          sameObj := true, hash := .unset, hashDiffers := false }],
+                          sameObj := true, hash := .unset, hashDiffers := false,
+                          order := .unset, orderKeyed := .T }],
              rhs := .identical, clsEq := .unset, autoDetect := false, own := ⟨.absent, .absent⟩,
              ancestors := [], subLayer := ⟨.absent, .absent⟩, foreignLayer := ⟨.absent, .absent⟩,
-             hist := ⟨false, false, false, [], []⟩ }).eqOp = .F := by decide
+             metaLayer := ⟨.absent, .absent⟩, hist := ⟨false, false, false, [], []⟩ }).eqOp = .F := by decide
 
 theorem upToFirstFalsy_mem (fs : List Field) :
     ∀ t ∈ upToFirstFalsy fs, ∃ f ∈ fs, tag f = t := by
@@ -333,10 +397,11 @@ theorem C03_model_meets_spec (c : Case) (hw : wf c = true) : spec c (model c) = 
     a builtin's pair — equality is still generated (`eq=True`) and the specification is met. -/
 example : ∃ c, wf c = true ∧ c.own = ⟨.user .F, .user .F⟩ ∧ c.ancestors ≠ [] ∧ spec c (model c) = true :=
   ⟨{ fields := [{ name := "a", cmp := .unset, eq := .unset, raw := .T, keyed := .F,
-                  sameObj := false, hash := .t, hashDiffers := true }],
+                  sameObj := false, hash := .t, hashDiffers := true, order := .key, orderKeyed := .F }],
      rhs := .same, clsEq := .t, autoDetect := true, own := ⟨.user .F, .user .F⟩,
      ancestors := [⟨.user .T, .user .F⟩], subLayer := ⟨.absent, .absent⟩,
-     foreignLayer := ⟨.absent, .absent⟩, hist := ⟨true, true, true, [], ["a"]⟩ },
+     foreignLayer := ⟨.absent, .absent⟩, metaLayer := ⟨.user .T, .user .F⟩,
+     hist := ⟨true, true, true, [], ["a"]⟩ },
    by decide, rfl, by decide, by decide⟩
 
 end Attrs.C03
